@@ -27,6 +27,9 @@ type c15Dir struct {
 	Len   int64 `json:"len"`        // total stream length including the 16-byte header
 	Write int   `json:"write_size"` // bytes per Write call; 0 = random 1..70000
 	Read  int   `json:"read_buf"`   // receiver buffer size
+	// StallMs > 0: the receiver reads nothing (beyond the header that identifies the connection)
+	// for this long while the sender keeps pushing, then drains everything
+	StallMs int `json:"reader_stall_ms,omitempty"`
 }
 
 // c15Conn is one case: one bridged connection with traffic in both directions.
@@ -148,7 +151,7 @@ func (e *c15Engine) c15Send(l *c15Live, conn net.Conn, st *bridgeStream, d c15Di
 		}
 		st.Next(buf[:n])
 		h.Write(buf[:n])
-		conn.SetWriteDeadline(time.Now().Add(e.stall))
+		conn.SetWriteDeadline(time.Now().Add(e.stall + time.Duration(d.StallMs)*time.Millisecond))
 		k, err := conn.Write(buf[:n])
 		res.Sent += int64(k)
 		if err != nil {
@@ -171,6 +174,9 @@ func (e *c15Engine) c15Recv(l *c15Live, conn net.Conn, v *bridgeVerifier, d c15D
 		ok = v.Check(pre)
 	}
 	buf := make([]byte, d.Read)
+	for until := time.Now().Add(time.Duration(d.StallMs) * time.Millisecond); d.StallMs > 0 && time.Now().Before(until) && !l.aborted(); {
+		time.Sleep(20 * time.Millisecond) // the planned stall: flow control must hold the sender, nothing may be lost
+	}
 	for ok && v.Received < d.Len {
 		conn.SetReadDeadline(time.Now().Add(e.stall))
 		n, err := conn.Read(buf)
@@ -320,7 +326,8 @@ func (e *c15Engine) round(specs []*c15Conn) []*c15Live {
 		lives[i].C2S.BadOffset, lives[i].S2C.BadOffset = -1, -1
 		e.lives[sp.Idx] = lives[i]
 	}
-	if len(specs) == 1 && specs[0].ServerFirst {
+	setSolo := len(specs) == 1 && specs[0].ServerFirst
+	if setSolo {
 		e.solo = lives[0]
 	}
 	e.mu.Unlock()
@@ -331,7 +338,9 @@ func (e *c15Engine) round(specs []*c15Conn) []*c15Live {
 	}
 	wg.Wait()
 	e.mu.Lock()
-	e.solo = nil
+	if setSolo {
+		e.solo = nil
+	}
 	for _, sp := range specs {
 		delete(e.lives, sp.Idx)
 	}
@@ -523,25 +532,109 @@ func (e *c15Engine) judge(l *c15Live, confirmRun bool) (cands []c15Candidate, ba
 	return cands, bad
 }
 
-func c15Streams(r *core.Run, bins bridgeBins) []*core.Proc {
+// c15StalledPlan: one connection per direction whose receiver stops reading
+// for 13-14 s while the sender pushes far more than the socket buffers on
+// the way can hold. A byte stream is flow-controlled end to end: the sender
+// must simply be held back, and every byte must arrive once the receiver
+// drains. They run alongside everything else.
+func c15StalledPlan(r *core.Run) []*c15Conn {
+	var out []*c15Conn
+	add := func(idx int, dir string, n int64, stall, write int) {
+		big := c15Dir{Len: n, Write: write, Read: 65536, StallMs: stall}
+		small := c15Dir{Len: bridgeHdrLen, Write: 1024, Read: 1024}
+		sp := &c15Conn{Idx: idx, Round: -1, Conc: 1, C2S: big, S2C: small}
+		if dir == "s2c" {
+			sp.C2S, sp.S2C = small, big
+		}
+		sp.Class = fmt.Sprintf("stalled-reader|%s|%dMiB|stall:%dms|w%s", dir, n>>20, stall, c15WriteClass(write))
+		out = append(out, sp)
+	}
+	add(2000001, "c2s", 32<<20+17, 14000, 32768)
+	add(2000002, "s2c", 32<<20+17, 14000, 32768)
+	if !r.Quick() {
+		add(2000003, "c2s", 48<<20+1, 13000, 0)
+		add(2000004, "s2c", 48<<20+1, 13000, 0)
+	}
+	return out
+}
+
+// c15Streams runs the E1 stream rounds. The returned finish function waits
+// for the stalled-reader connections (started first, running alongside the
+// rounds and whatever the caller does next), judges them and closes the far end.
+func c15Streams(r *core.Run, bins bridgeBins) ([]*core.Proc, func()) {
 	e := &c15Engine{r: r, stall: 20 * time.Second, lives: map[int]*c15Live{}, chunkHist: map[string]int{}}
 	srv, err := bridgeNewTCPServer(e.serve)
 	if err != nil {
 		r.Broken("tcp server: " + err.Error())
-		return nil
+		return nil, func() {}
 	}
-	defer srv.Close()
 	e.srv = srv
 	topo, err := bridgeStartTopo(r, bins, "", srv.Port)
 	if err != nil {
+		srv.Close()
 		r.Broken(err.Error())
-		return nil
+		return nil, func() {}
 	}
 	e.topo = topo
 	var values [256]bool
 	var cands []c15Candidate
 	sampled := map[int]bool{}
 	t0 := time.Now()
+	account := func(l *c15Live) {
+		r.Add("e1_bytes_client_to_server", int(l.C2S.Recv))
+		r.Add("e1_bytes_server_to_client", int(l.S2C.Recv))
+		r.Add("e1_checkpoints_compared", l.C2S.Checkpoints+l.S2C.Checkpoints)
+		for i := range values {
+			values[i] = values[i] || l.C2S.values[i] || l.S2C.values[i]
+		}
+	}
+	stalledDone := make(chan []*c15Live, 1)
+	go func() { stalledDone <- e.round(c15StalledPlan(r)) }()
+	// let their far ends attach before the rounds begin (a server-first solo round claims the next accept)
+	for deadline := time.Now().Add(5 * time.Second); time.Now().Before(deadline); time.Sleep(5 * time.Millisecond) {
+		e.mu.Lock()
+		n := 0
+		for _, l := range e.lives {
+			l.mu.Lock()
+			if l.claim != 0 {
+				n++
+			}
+			l.mu.Unlock()
+		}
+		ready := n >= len(c15StalledPlan(r))
+		e.mu.Unlock()
+		if ready {
+			break
+		}
+	}
+	finish := func() {
+		defer srv.Close()
+		var lives []*c15Live
+		select {
+		case lives = <-stalledDone:
+		case <-time.After(3 * time.Minute):
+			r.Broken("stalled-reader connections did not end within 3 minutes")
+			return
+		}
+		for _, l := range lives {
+			r.Case(l.Spec.Class)
+			cs, bad := e.judge(l, false)
+			account(l)
+			big := &l.C2S
+			if l.Spec.S2C.StallMs > 0 {
+				big = &l.S2C
+			}
+			r.Add("e1_stalled_reader_bytes_delivered", int(big.Recv))
+			for _, c := range cs {
+				r.Inconclusive(fmt.Sprintf("stalled-reader connection %d: %s (not re-run)", l.Spec.Idx, c.what))
+			}
+			if !bad && len(cs) == 0 {
+				r.Sample(l)
+			}
+		}
+		f, b := topo.Census()
+		r.Set("e1_bridge_sockets_at_end", map[string]int{"frontend": f, "backend": b, "frontend_idle": topo.FrontBase, "backend_idle": topo.BackBase})
+	}
 	for _, round := range c15Plan(r) {
 		if !topo.Front.Alive() || !topo.Back.Alive() {
 			break
@@ -555,12 +648,7 @@ func c15Streams(r *core.Run, bins bridgeBins) []*core.Proc {
 			r.Case(sp.Class)
 			cs, bad := e.judge(l, false)
 			cands = append(cands, cs...)
-			r.Add("e1_bytes_client_to_server", int(l.C2S.Recv))
-			r.Add("e1_bytes_server_to_client", int(l.S2C.Recv))
-			r.Add("e1_checkpoints_compared", l.C2S.Checkpoints+l.S2C.Checkpoints)
-			for i := range values {
-				values[i] = values[i] || l.C2S.values[i] || l.S2C.values[i]
-			}
+			account(l)
 			if !bad && len(cs) == 0 && !sampled[sp.Conc] {
 				sampled[sp.Conc] = true
 				r.Sample(l)
@@ -603,9 +691,7 @@ func c15Streams(r *core.Run, bins bridgeBins) []*core.Proc {
 		}
 	}
 	r.Set("e1_distinct_byte_values_carried", nv)
-	f, b := topo.Census()
-	r.Set("e1_bridge_sockets_at_end", map[string]int{"frontend": f, "backend": b, "frontend_idle": topo.FrontBase, "backend_idle": topo.BackBase})
-	return []*core.Proc{topo.Front, topo.Back}
+	return []*core.Proc{topo.Front, topo.Back}, finish
 }
 
 // ---- passthrough ------------------------------------------------------------------------
@@ -914,15 +1000,16 @@ func c15E2(r *core.Run, bin string) {
 
 // C15 — the TCP bridge carries byte streams intact in both directions.
 func C15(r *core.Run) {
-	r.SetRule("E1: harness TCP clients -> real tcp-bridge-frontend -> real tcp-bridge-backend -> harness TCP server, rounds of 1/4/16/48 concurrent connections, both directions at once, each direction an independent stream header+PRNG(seed,conn,dir) written with sizes {1,2,1023,1024,1025,4096,32768,65537,random} and read with buffers {1,7,1024,65536}; every read is compared with the regenerated stream (prefix), length+SHA-256 at the end; class = (concurrency, who speaks first, per direction write size/read buffer/length class). Passthrough: grammar-generated requests of C02 plus websocket upgrades on other paths / plain and other-protocol requests on the streaming path through the backend binary to a raw recording backend under the request fidelity oracle. E2: connection.Handler/DialWebsocket/WebsocketNetConn in-process with empty writes, 1-byte reads, raw gorilla peers interleaving binary/ping/pong frames, single writes up to 16 MiB")
+	r.SetRule("E1: harness TCP clients -> real tcp-bridge-frontend -> real tcp-bridge-backend -> harness TCP server, rounds of 1/4/16/48 concurrent connections, both directions at once, each direction an independent stream header+PRNG(seed,conn,dir) written with sizes {1,2,1023,1024,1025,4096,32768,65537,random} and read with buffers {1,7,1024,65536}; every read is compared with the regenerated stream (prefix), length+SHA-256 at the end; plus one connection per direction whose receiver stalls 13-14 s while 32-48 MiB are pushed at it (flow control must hold the sender, every byte must arrive); class = (concurrency, who speaks first, per direction write size/read buffer/length class). Passthrough: grammar-generated requests of C02 plus websocket upgrades on other paths / plain and other-protocol requests on the streaming path through the backend binary to a raw recording backend under the request fidelity oracle. E2: connection.Handler/DialWebsocket/WebsocketNetConn in-process with empty writes, 1-byte reads, raw gorilla peers interleaving binary/ping/pong frames, single writes up to 16 MiB")
 	r.Assume("passthrough: well-formed requests only (C02 generator); hop-by-hop fields are legitimately removed, upgrade requests keep Connection/Upgrade; X-Forwarded-For may gain the proxy's client address after the sender's values; only HTTP/1.1 towards the backend binary (h2c not exercised)")
 	r.Assume("a stream that stops making progress for 20 s (E1) / 10 s (E2) counts only if the same connection plan stalls again when re-run alone")
 	bins := bridgeBuild(r)
 	worker := r.MustBuild(r.BuildWorker())
 
-	procs := c15Streams(r, bins)
+	procs, finishStalled := c15Streams(r, bins)
 	procs = append(procs, c15Passthrough(r, bins)...)
 	c15E2(r, worker)
+	finishStalled()
 
 	judgeProcs(r, true, procs...)
 	killAll(procs...)
